@@ -27,11 +27,15 @@ class GenericResolver(Generic[K, M]):
         self._raw_members_getter = members_getter
 
     def get_resolved_members(self, tp: TypeHint) -> MembersStorage[K, M]:
-        if is_parametrized(tp):
+        if is_parametrized(tp) or self._is_parametrized_by_nothing(tp):
             return self._get_members_of_parametrized_generic(tp)
         if is_generic(tp):
             return self._get_members_of_parametrized_generic(fill_implicit_params(tp))
         return self._get_members_by_parents(tp)
+
+    def _is_parametrized_by_nothing(self, tp: TypeHint) -> bool:
+        # ``Gen[()]`` binds TypeVarTuple of ``Gen`` to an empty sequence, it is an alias without arguments
+        return HAS_TV_TUPLE and strip_alias(tp) != tp and not is_generic(tp) and is_generic(strip_alias(tp))
 
     def _get_members_of_parametrized_generic(self, parametrized_generic) -> MembersStorage[K, M]:
         origin = strip_alias(parametrized_generic)
